@@ -176,6 +176,63 @@ func (fx *Fx) ctxMethod(st *State, recv string, meth string, sig *types.Signatur
 
 // ---------- channel message invariants (declared per struct field holding the channel) ----------
 
+// chanInvOf finds the invariant declared for the struct field the channel expression reads (x.f).
+func (fx *Fx) chanInvOf(e ast.Expr) *ChanInv {
+	se, ok := ast.Unparen(e).(*ast.SelectorExpr)
+	if !ok {
+		return nil
+	}
+	sel, ok := fx.pkg.info.Selections[se]
+	if !ok || sel.Kind() != types.FieldVal {
+		return nil
+	}
+	t := sel.Recv()
+	if p, ok := t.Underlying().(*types.Pointer); ok {
+		t = p.Elem()
+	}
+	n, ok := t.(*types.Named)
+	if !ok {
+		return nil
+	}
+	return fx.v.contracts.ChanInvs[fx.pkg.name+"."+n.Obj().Name()+"."+se.Sel.Name]
+}
+
+func (fx *Fx) checkChanInvariantExpr(st *State, chanExpr ast.Expr, v Val) {
+	ci := fx.chanInvOf(chanExpr)
+	if ci == nil {
+		return
+	}
+	saved, had := st.bound[ci.Var]
+	st.bound[ci.Var] = v
+	for _, cl := range ci.Send {
+		g := fx.specEval(st, fx.pkg, nil, nil, cl.Expr)
+		fx.oblige(st, "chan", "msginv("+exprText(chanExpr)+"):"+cl.Label, g, cl.Text)
+	}
+	if had {
+		st.bound[ci.Var] = saved
+	} else {
+		delete(st.bound, ci.Var)
+	}
+}
+
+func (fx *Fx) assumeChanInvariantExpr(st *State, chanExpr ast.Expr, v Val, ok string) {
+	ci := fx.chanInvOf(chanExpr)
+	if ci == nil {
+		return
+	}
+	saved, had := st.bound[ci.Var]
+	st.bound[ci.Var] = v
+	for _, cl := range ci.Recv {
+		st.assume(implies(ok, fx.specEval(st, fx.pkg, nil, nil, cl.Expr)))
+	}
+	fx.assumed["channel message invariant of "+exprText(chanExpr)+": assumed at the receive; its sender-side part is an obligation at every send"] = true
+	if had {
+		st.bound[ci.Var] = saved
+	} else {
+		delete(st.bound, ci.Var)
+	}
+}
+
 func (fx *Fx) checkChanInvariant(st *State, c, v Val, what string) {}
 
 func (fx *Fx) assumeChanInvariant(st *State, c, v Val, ok string, what string) {}
